@@ -17,23 +17,30 @@ ASSUMPTIONS = [
     "model time increments are compared with the step size used up to 64 eps of the magnitudes added (one floating-point addition)",
 ]
 TIERS = {"quick": {"worlds": 700, "wall": 150, "limit": 90.0}, "thorough": {"worlds": 15000, "wall": 1700, "limit": 200.0}}
-GATES = ("nontrivial", "runs.with_veto", "runs.with_path", "runs.time_limited", "fired.total")
+GATES = ("nontrivial", "runs.with_veto", "runs.with_path", "runs.time_limited", "fired.total", "foreign.pairs")
 
 
 def generate(rng, seed, index, tier):
     fam = str(rng.choice(["qp", "nlp", "degenerate", "domain", "infeasible", "unbounded"], p=[0.3, 0.3, 0.1, 0.1, 0.1, 0.1]))
     spec, x0, y0 = gen.gen_problem(rng, fam)
-    kw = gen.gen_params(rng, spec, x0, y0, p_knob=0.5, reporting=False)
+    x0, y0, sform = gen.start_forms(rng, spec, x0, y0, p=0.1)
+    kw = gen.gen_params(rng, spec, x0, y0, p_knob=0.5, reporting=False, numeric=0.3)
     if rng.random() < 0.35:
         kw["penalty_update"] = str(rng.choice(["ObjectiveFilter", "LagrangianFilter"]))
     if rng.random() < 0.7:
+        kw["collect_path"] = True
+    if rng.random() < 0.12:
+        # controllers without a step-size floor of their own, with the floor raised into the range they visit
+        kw["step_control_type"] = str(rng.choice(["Exact", "Fixed"]))
+        kw["lamb_min"] = float(rng.choice([0.5, 0.05]))
+        kw["lamb_init"] = float(rng.choice([4.0, 1.0, 0.01]))
         kw["collect_path"] = True
     kw["iteration_limit"] = int(rng.choice([0, 1, 2, 7, 30, 120], p=[0.03, 0.05, 0.07, 0.25, 0.4, 0.2]))
     clock = gen.gen_clock(rng, n=800)
     if rng.random() < 0.3:
         kw["time_limit"] = float(rng.choice([0.05, 0.5, 3.0]))
     kw["display_interval"] = float(rng.choice([0.0, 0.1, 1e18]))
-    return gen.base_world(seed, ID, index, spec, x0, y0, kw, clock=clock, obs=gen.gen_obs(rng), case={"resolve": bool(rng.random() < 0.2), "faulted": bool(rng.random() < 0.4), "pts_seed": int(rng.integers(0, 2**31))})
+    return gen.base_world(seed, ID, index, spec, x0, y0, kw, clock=clock, obs=gen.gen_obs(rng), case={"resolve": bool(rng.random() < 0.2), "faulted": bool(rng.random() < 0.4), "pts_seed": int(rng.integers(0, 2**31)), "foreign": bool(rng.random() < 0.12)}, start_form=sform)
 
 
 def _nontrivial(ex, bump):
